@@ -227,6 +227,41 @@ def check_fn(case):
     return _expect_value_error(lambda: f(list(x), list(y)), key), (cls, variant, len(x))
 
 
+@kind("invalid-function-call-long")
+def check_fn_long(case):
+    """the same invalid calls with a long valid series around them (fast paths are chosen by size)"""
+    m = case["len"]
+    x = A.long_grid(m, "gaps")
+    y = A.long_values(m, "saw")
+    fails, sig = check_fn({"index": case["index"], "x": x, "y": y})
+    for f in fails:
+        f["key"] = dict(f["key"], long=True)
+    return fails, sig
+
+
+@kind("large-state-c20")
+def check_large_state(case):
+    """every invalid Weaver request in a state with MANY samples: constructor, recreate with a large n, one more operation"""
+    r = WO.Runner(WO.INITS[case["init"]])
+    try:
+        with warnings.catch_warnings():
+            warnings.simplefilter("ignore")
+            r.wv.recreate_from_average(case["n"], rfa_class=RC.cls(case["strategy"]))
+            if case["then"] == "append":
+                r.wv.append_one_sample()
+            elif case["then"] == "shift":
+                r.wv.shift_x(2.5)
+            elif case["then"] == "match":
+                r.wv.integral_match()
+    except Exception:  # noqa  (valid-history failures are C09's subject)
+        return [], ("skipped",)
+    r.history = [("recreate", case["strategy"], case["n"]), (case["then"],)]
+    fails = state_checks(r, (case["then"],))
+    for f in fails:
+        f["key"] = dict(f.get("key") or {}, large=True)
+    return fails, ("large", case["init"], case["n"], case["strategy"], case["then"], len(r.wv.get()[0]))
+
+
 def replay(case):
     return _replay(case)
 
@@ -276,5 +311,27 @@ def harnesses(tier, seed):
             done.append(op)
             node(op)
 
-    return [{"name": "function-level", "body": fn_body}, {"name": "in-every-state", "body": state_body,
+    lsizes = [v for v in A.sizes(34, 1100 if quick else 9000) if v >= 16]
+
+    def fn_long_body(ctx):
+        i = ctx.choose(len(FN_CASES), "invalid-call")
+        if FN_CASES[i][0] in ("unknown-dataset",):
+            return
+        for m in lsizes:
+            if m > 300 and FN_CASES[i][0] in ("n<2", "too-many-fixed-points"):
+                continue
+            judge(ctx, check_fn_long, {"index": i, "class": FN_CASES[i][0], "variant": FN_CASES[i][1], "len": m}, bulk=True)
+
+    def large_body(ctx):
+        ii = ctx.choose([0, 1, 3, 5], "init")
+        n = ctx.choose([17, 20, 32, 33, 48, 64] + [c + 1 for c in A.code_constants(lo=65, hi=300, exclude="datasets")], "n")
+        st = ctx.choose(["linfix", "pconst", "spline"], "strategy")
+        then = ctx.choose(["nothing", "append", "shift", "match"], "then")
+        judge(ctx, check_large_state, {"init": ii, "n": n, "strategy": st, "then": then}, calls=45,
+              nontrivial=lambda sg: sg[0] != "skipped")
+
+    return [{"name": "function-level", "body": fn_body},
+            {"name": "function-level-long-series", "body": fn_long_body, "bound_text": "series lengths %s" % lsizes},
+            {"name": "in-large-states", "body": large_body, "bound_text": "constructor, recreate with n in {17..64, code constants+1}, one more operation"},
+            {"name": "in-every-state", "body": state_body,
                                                           "bound_text": "all programs over 24 core ops to depth %d" % depth}]
